@@ -49,6 +49,23 @@ mod proofs {
         assert!(logic::c03_log_info(&inp).is_ok());
     }
 
+    // regex engines and text rendering are unreachable for the literal criteria used here, but must not be compiled by
+    // Kani (kani-compiler crashes on regex_automata): stubbed away
+    fn stub_bytes_is_match(_r: &regex::bytes::Regex, _h: &[u8]) -> bool { false }
+    fn stub_str_is_match(_r: &regex::Regex, _h: &str) -> bool { false }
+    fn stub_fancy_is_match(_r: &fancy_regex::Regex, _h: &str) -> fancy_regex::Result<bool> { Ok(false) }
+    fn stub_payload_as_text(_m: &adlt::dlt::DltMessage) -> Result<std::borrow::Cow<'_, str>, std::fmt::Error> { Err(std::fmt::Error) }
+    #[kani::proof]
+    #[kani::unwind(6)]
+    #[kani::stub(regex::bytes::Regex::is_match, stub_bytes_is_match)]
+    #[kani::stub(regex::Regex::is_match, stub_str_is_match)]
+    #[kani::stub(fancy_regex::Regex::is_match, stub_fancy_is_match)]
+    #[kani::stub(adlt::dlt::DltMessage::payload_as_text, stub_payload_as_text)]
+    fn k_c12_match_filters() {
+        let inp: [u8; 3] = kani::any();
+        assert!(logic::c12_match_filters(&inp).is_ok());
+    }
+
     // deliberately failing: used by `./check selftest-kani` to test the counterexample -> replay path
     #[kani::proof]
     fn k_selftest_fail() {
